@@ -187,25 +187,28 @@ def kind_c(report, tier):
                 for route in ("tensor_method", "evaluate"):
                     if route == "evaluate" and backend != BackendCompiler.llvm:
                         continue
-                    outcome, entered = isolated_call(counter, route, tm, evaluate, assignment, formats[a.target.name], kwargs, doc)
-                    bad = None
-                    if route == "tensor_method":
-                        if should_refuse and (entered or not outcome in ("TypeError", "ValueError")):
-                            bad = f"{desc}: outcome {outcome}, kernel entered {entered} time(s)"
-                    else:
-                        # evaluate derives the formats from the arguments: a different format is a different
-                        # (legitimate) problem; only shape/type/name inconsistencies must be refused
-                        if not consistent(a, kwargs):
-                            if entered or outcome == "returned" or outcome.startswith("OTHER"):
-                                bad = f"{desc}: outcome {outcome}, kernel entered {entered} time(s)"
-                        elif outcome.startswith("OTHER") and not outcome.startswith("OTHER:process"):
-                            # (a crash or hang of a call with consistent arguments is C05's business, not this property's)
-                            bad = f"{desc}: outcome {outcome}"
-                    if should_refuse:
-                        nontrivial += 1
-                    if bad and shown < 5:
-                        shown += 1
-                        report.violation(f"{route}:{assignment}:{desc}"[:140], dict(what=bad, assignment=assignment, formats=formats, route=route, backend=str(backend)), True)
+                    for history in ("first call", "after a valid call"):
+                        outcome, entered = isolated_call(counter, route, tm, evaluate, assignment, formats[a.target.name], kwargs, doc,
+                                                         warmup=inputs if history == "after a valid call" else None)
+                        desc_h = f"{desc} ({history})"
+                        bad = None
+                        if route == "tensor_method":
+                            if should_refuse and (entered or not outcome in ("TypeError", "ValueError")):
+                                bad = f"{desc_h}: outcome {outcome}, kernel entered {entered} time(s)"
+                        else:
+                            # evaluate derives the formats from the arguments: a different format is a different
+                            # (legitimate) problem; only shape/type/name inconsistencies must be refused
+                            if not consistent(a, kwargs):
+                                if entered or outcome == "returned" or outcome.startswith("OTHER"):
+                                    bad = f"{desc_h}: outcome {outcome}, kernel entered {entered} time(s)"
+                            elif outcome.startswith("OTHER") and not outcome.startswith("OTHER:process"):
+                                # (a crash or hang of a call with consistent arguments is C05's business, not this property's)
+                                bad = f"{desc_h}: outcome {outcome}"
+                        if should_refuse:
+                            nontrivial += 1
+                        if bad and shown < 5:
+                            shown += 1
+                            report.violation(f"{route}:{assignment}:{desc_h}"[:140], dict(what=bad, assignment=assignment, formats=formats, route=route, backend=str(backend)), True)
                 if len(samples) < 8:
                     samples.append(dict(assignment=assignment, case=desc))
     report.samples = samples
@@ -216,8 +219,9 @@ def kind_c(report, tier):
                                evaluations=evals, distinct_nontrivial=nontrivial, rule="non-trivial = the mutated call must be refused"))
 
 
-def isolated_call(counter, route, tm, evaluate, assignment, out_format, kwargs, doc):
-    """Run one call in a forked child so that a crash of the process is an observable outcome."""
+def isolated_call(counter, route, tm, evaluate, assignment, out_format, kwargs, doc, warmup=None):
+    """Run one call in a forked child so that a crash of the process is an observable outcome.
+    warmup: arguments of a VALID call made first in the same child (refusal must not depend on the history of calls)."""
     import pickle
     import signal
 
@@ -227,6 +231,15 @@ def isolated_call(counter, route, tm, evaluate, assignment, out_format, kwargs, 
         os.close(r)
         counter.n = 0
         signal.alarm(120)  # a kernel that never returns ends the child (SIGALRM): observed as a crash
+        if warmup is not None:
+            try:
+                if route == "tensor_method":
+                    tm(**warmup)
+                else:
+                    evaluate(assignment, out_format, **warmup)
+            except BaseException:  # noqa: BLE001
+                pass
+            counter.n = 0
         try:
             try:
                 if route == "tensor_method":
